@@ -649,7 +649,11 @@ func confirm(b *builder, prop string, path string, v violation) (bool, string) {
 	}
 	json.Unmarshal(v.Replay, &r)
 	raceHits := 0
-	for i := 0; i < 5; i++ {
+	attempts := 5
+	if r.Race && strings.HasPrefix(v.Sig, "race|") {
+		attempts = 10 // the detector's bounded shadow history misses a given race on some runs, more often on a loaded machine
+	}
+	for i := 0; i < attempts; i++ {
 		var out string
 		var err error
 		if r.Kind == "crash" {
@@ -674,8 +678,11 @@ func confirm(b *builder, prop string, path string, v violation) (bool, string) {
 			if ee, ok := err.(*exec.ExitError); ok && ee.ExitCode() == 66 {
 				raceHits++
 			}
-			if i == 4 && raceHits == 0 {
-				return false, "race report did not reproduce in 5 replays of the schedule"
+			if raceHits > 0 {
+				return true, ""
+			}
+			if i == attempts-1 {
+				return false, "race report did not reproduce in 10 replays of the schedule"
 			}
 			continue
 		}
